@@ -108,7 +108,13 @@ fn gen(t: &mut Tape, _tier: Tier) -> Scenario {
             sc.set_i("ep", EP_RAW_LZMA);
         }
         _ => {
-            let plan = gen_xz_plan(t, 500);
+            let mut plan = gen_xz_plan(t, 500);
+            if t.below(6) == 0 {
+                // a check type outside the supported subset (field size and, for
+                // SHA-256, value consistent): refused - by every reader alike
+                plan.check_id = [2u8, 3, 5, 6, 7, 8, 9, 10, 10, 10, 11, 12, 13, 14, 15][t.below(15) as usize];
+                variant = format!("check ID {}", plan.check_id);
+            }
             input = build_xz(&plan).bytes;
             sc.set_i("ep", EP_XZ);
             if t.below(2) == 0 {
@@ -229,7 +235,7 @@ fn exec(sc: &Scenario, ctx: &mut Ctx) -> Vec<Violation> {
 pub static C13: SimpleProp = SimpleProp {
     id: "C13",
     level: "exploration",
-    rule: "(LZMA inputs include marker-terminated streams decoded with the true size in effect as well) one evaluation = one pair of decodes of the same bytes (valid stream of each format, or bit-flipped / truncated / extended / spliced) — once from a slice exposing everything, once through scripted refills (1 byte, fixed k, random patterns) or a real std BufReader of capacity 1..64 over short reads; verdict kind must match, and on success bytes and consumed count; non-trivial = the fragmented reader needed more than one refill; distinct by (scenario, event log) hash",
+    rule: "(LZMA inputs include marker-terminated streams decoded with the true size in effect as well) one evaluation = one pair of decodes of the same bytes (valid stream of each format - for .xz also CRC-consistent field substitutions incl. integers not in shortest form, and a sixth of the files with a check type outside the supported subset - or bit-flipped / truncated / extended / spliced) — once from a slice exposing everything, once through scripted refills (1 byte, fixed k, random patterns) or a real std BufReader of capacity 1..64 over short reads; verdict kind must match, and on success bytes and consumed count; non-trivial = the fragmented reader needed more than one refill; distinct by (scenario, event log) hash",
     runs_quick: 120_000,
     runs_thorough: 24_000_000,
     both_profiles: false,
